@@ -22,6 +22,10 @@ pub struct Plan {
     pub strategy: Strategy,
     pub sched_seed: u64,
     pub heavy: bool,
+    /// cold plan: the sequential reference is computed in a separate forked process, so the threads
+    /// under the baton make the very first calls on the shared engines (lazily initialised tables,
+    /// empty caches); warm plan: the reference pass runs first in the same process on the same engines
+    pub cold: bool,
 }
 
 pub fn combined_hook(site: u32) {
@@ -56,10 +60,19 @@ pub fn gen_plan(seed: u64, metas: &[Meta], corpus_len: usize) -> Plan {
         shared.push((voices, sets));
     }
     let nthreads = if heavy { *r.pick(&[2usize, 2, 3, 4]) } else { *r.pick(&[2usize, 2, 3, 3, 4, 4, 6, 8, 16]) };
-    let nutt = r.range(1, 3);
+    // diverse plans: every thread works on its own, longer utterances (many distinct labels in flight at
+    // once, as in a server); otherwise a small pool shared by all threads (same keys on several threads)
+    let diverse = !heavy && r.chance(0.25);
+    let nutt = if diverse { 2 * nthreads } else { r.range(1, 3) };
     let mut utts: Vec<Utt> = Vec::new();
     for _ in 0..nutt {
-        let class = if heavy { *r.pick(&[1usize, 2]) } else { *r.pick(&[1usize, 2, 2, 3, 3, 3]) };
+        let class = if heavy {
+            *r.pick(&[1usize, 2])
+        } else if diverse {
+            *r.pick(&[3usize, 3, 4])
+        } else {
+            *r.pick(&[1usize, 2, 2, 3, 3, 3])
+        };
         utts.push(make_utt(&mut r, corpus_len, class));
     }
     let mut threads = Vec::new();
@@ -70,7 +83,7 @@ pub fn gen_plan(seed: u64, metas: &[Meta], corpus_len: usize) -> Plan {
         let mut have_gen = false;
         for _ in 0..nops {
             let s = r.below(nshared);
-            let utt = utts[r.below(utts.len())].clone();
+            let utt = if diverse { utts[2 * t + r.below(2)].clone() } else { utts[r.below(utts.len())].clone() };
             let k = r.below(10);
             let op = match k {
                 0..=3 => Op::Synth { e: s, utt, form: *r.pick(&Form::ALL) },
@@ -110,7 +123,9 @@ pub fn gen_plan(seed: u64, metas: &[Meta], corpus_len: usize) -> Plan {
             ops.insert(0, TOp { task: t as u8, op: Op::Synth { e: 0, utt: utts[t % utts.len()].clone(), form: Form::Slice } });
         }
     }
-    Plan { shared, threads, strategy, sched_seed: r.next_u64(), heavy }
+    let sched_seed = r.next_u64();
+    let cold = r.chance(0.5);
+    Plan { shared, threads, strategy, sched_seed, heavy, cold }
 }
 
 pub struct KeyOut {
@@ -242,10 +257,72 @@ pub fn run_plan(plan: &Plan, env: &mut Env, corpus: &Arc<Vec<String>>, forced: O
             shared.push(SharedEngine { arc: Arc::new(e), model: slot.model, vs_id: slot.vs_id, voices: slot.voices, heavy: slot.heavy });
         }
     }
-    // --- sequential reference: each thread's program alone, no interleaving
+    // --- sequential reference: each thread's program alone, no interleaving.
+    // warm plan: here, on the shared engines themselves; cold plan: in a forked copy of this process,
+    // so that the engines the threads are about to share have never been used
     let mut seq: Vec<ThreadOut> = Vec::new();
-    for ops in &plan.threads {
-        let t = run_program(ops, &shared, env, false);
+    if plan.cold {
+        let scratch = env.dir.join("seq-pass.out");
+        let clean = |x: &str| x.replace(['\t', '\n', '\x1f'], " ");
+        let r = crate::fork::isolated(&scratch, std::time::Duration::from_secs(600), || {
+            let mut s = String::new();
+            use std::fmt::Write as _;
+            for ops in &plan.threads {
+                let t = run_program(ops, &shared, env, false);
+                let _ = writeln!(
+                    s,
+                    "T\t{}\t{}\t{}",
+                    t.yields,
+                    t.harness.as_deref().map(clean).unwrap_or_default(),
+                    t.violation.as_ref().map(|v| format!("{}\x1f{}\x1f{}\x1f{}", v.oracle, clean(&v.class), clean(&v.detail), v.op_index)).unwrap_or_default()
+                );
+                for k in &t.keys {
+                    let _ = writeln!(s, "K\t{:x}\t{}\t{}\t{}", k.hash, k.len, k.kind, clean(&k.key));
+                }
+                if t.harness.is_some() || t.violation.is_some() {
+                    break;
+                }
+            }
+            s
+        });
+        match r {
+            crate::fork::ForkOut::Ok(text) => {
+                for l in text.lines() {
+                    let f: Vec<&str> = l.split('\t').collect();
+                    match f[0] {
+                        "T" if f.len() >= 4 => {
+                            let violation = if f[3].is_empty() {
+                                None
+                            } else {
+                                let p: Vec<&str> = f[3].split('\x1f').collect();
+                                let oracle: &'static str = Box::leak(p[0].to_string().into_boxed_str());
+                                Some(Violation { oracle, class: p.get(1).unwrap_or(&"").to_string(), detail: p.get(2).unwrap_or(&"").to_string(), op_index: p.get(3).and_then(|x| x.parse().ok()).unwrap_or(0) })
+                            };
+                            seq.push(ThreadOut { keys: vec![], violation, harness: if f[2].is_empty() { None } else { Some(f[2].to_string()) }, stats: Stats::default(), yields: f[1].parse().unwrap_or(0) });
+                        }
+                        "K" if f.len() >= 5 => {
+                            if let Some(t) = seq.last_mut() {
+                                t.keys.push(KeyOut { key: f[4].to_string(), hash: u64::from_str_radix(f[1], 16).unwrap_or(0), len: f[2].parse().unwrap_or(0), kind: f[3].parse().unwrap_or(0) });
+                            }
+                        }
+                        _ => {}
+                    }
+                }
+            }
+            crate::fork::ForkOut::Died(d) => {
+                out.harness = Some(format!("sequential reference process of a cold plan died: {}", d));
+                return out;
+            }
+        }
+    } else {
+        for ops in &plan.threads {
+            seq.push(run_program(ops, &shared, env, false));
+            if seq.last().map(|t| t.harness.is_some() || t.violation.is_some()).unwrap_or(false) {
+                break;
+            }
+        }
+    }
+    for t in &seq {
         if let Some(h) = &t.harness {
             out.harness = Some(h.clone());
             return out;
@@ -255,7 +332,10 @@ pub fn run_plan(plan: &Plan, env: &mut Env, corpus: &Arc<Vec<String>>, forced: O
             out.violation = Some(Violation { oracle: v.oracle, class: format!("sequential:{}", v.class), detail: v.detail.clone(), op_index: v.op_index });
             return out;
         }
-        seq.push(t);
+    }
+    if seq.len() != plan.threads.len() {
+        out.harness = Some("sequential reference incomplete".into());
+        return out;
     }
     let est_total: u64 = seq.iter().map(|t| t.yields + plan.threads.len() as u64).sum::<u64>().max(1);
     // cross-thread consistency of the sequential pass itself
@@ -446,6 +526,7 @@ pub fn run_plan(plan: &Plan, env: &mut Env, corpus: &Arc<Vec<String>>, forced: O
 impl Plan {
     pub fn to_lines(&self) -> Vec<String> {
         let mut v = Vec::new();
+        v.push(format!("mode {}", if self.cold { "cold" } else { "warm" }));
         v.push(format!("strategy {}", self.strategy.to_text()));
         v.push(format!("sched_seed {}", self.sched_seed));
         for (i, (voices, sets)) in self.shared.iter().enumerate() {
@@ -464,7 +545,7 @@ impl Plan {
     }
 
     pub fn from_lines(lines: &[String]) -> Option<(Plan, Option<Vec<(u16, u64, bool)>>)> {
-        let mut p = Plan { shared: vec![], threads: vec![], strategy: Strategy::Random { mean: 10.0 }, sched_seed: 0, heavy: false };
+        let mut p = Plan { shared: vec![], threads: vec![], strategy: Strategy::Random { mean: 10.0 }, sched_seed: 0, heavy: false, cold: false };
         let mut forced = None;
         for l in lines {
             let (k, v) = l.split_once(' ').unwrap_or((l.as_str(), ""));
@@ -479,6 +560,7 @@ impl Plan {
                         p.strategy = Strategy::Pct { change_points: if c.is_empty() { vec![] } else { c.split(',').map(|x| x.parse().ok()).collect::<Option<Vec<u64>>>()? } };
                     }
                 }
+                "mode" => p.cold = v == "cold",
                 "sched_seed" => p.sched_seed = v.parse().ok()?,
                 "shared" => {
                     let (_, vs) = v.split_once(' ')?;
@@ -925,7 +1007,7 @@ pub fn cmd_l2a(args: &crate::Args) -> i32 {
         .set("evaluations", J::u(all.len() as u64))
         .set("distinct_schedules", J::u(scheds.len() as u64))
         .set("distinct_nontrivial", J::u(nontrivial.len() as u64))
-        .set("rule", J::s("one evaluation = one plan (1-2 frozen engines shared by 2-16 real threads, each with a program of synthesize / generator / clone+set+synthesize / failing calls) executed once alone per thread and once under the baton scheduler; non-trivial = at least one context switch happened and at least one waveform was compared; distinct = distinct executed run-length schedule"))
+        .set("rule", J::s("one evaluation = one plan (1-2 frozen engines shared by 2-16 real threads, each with a program of synthesize / generator / clone+set+synthesize / failing calls) executed once alone per thread (cold plans: in a separate forked process, so the threads make the first calls ever on the shared engines; warm plans: first, in the same process) and once under the baton scheduler; non-trivial = at least one context switch happened and at least one waveform was compared; distinct = distinct executed run-length schedule"))
         .set("samples", J::Arr(samples))
         .set("context_switches", J::u(switches))
         .set("context_switches_by_site", sites)
@@ -935,6 +1017,8 @@ pub fn cmd_l2a(args: &crate::Args) -> i32 {
         .set("strategies", J::from_counts(&strat_hist))
         .set("max_threads_piled_up_at_one_site", J::u(all.iter().map(|s| s.out.max_piled as u64).max().unwrap_or(0)))
         .set("plans_with_9_or_more_threads_piled_up", J::u(all.iter().filter(|s| s.out.max_piled >= 9).count() as u64))
+        .set("cold_plans_threads_make_the_first_calls_on_the_engines", J::u(all.iter().filter(|s| s.plan.cold).count() as u64))
+        .set("warm_plans_reference_pass_first_in_the_same_process", J::u(all.iter().filter(|s| !s.plan.cold).count() as u64))
         .set("tainted_runs_blocking_detected", J::u(all.iter().filter(|s| s.out.tainted).count() as u64))
         .set("forced_unblocks", J::u(all.iter().map(|s| s.out.forced_unblock).sum()))
         .set("determinism_pairs_checked", J::u(det_pairs))
